@@ -3,4 +3,5 @@ CONSTANT NoCollapseRun = FALSE
 CONSTANT Depth = 2
 CONSTANT NFree = 6
 INVARIANT MeshOK
+INVARIANT Outward
 CHECK_DEADLOCK FALSE
